@@ -257,4 +257,73 @@ example : hostCheck (exOrphan [("good", some ["a.com"]), ("orphan", some ["b.com
     hostCheck (exOrphan [("orphan", some ["b.com"]), ("good", some ["a.com"])]) = .err := by
   constructor <;> decide
 
+/-! ### the other check functions: acceptance does not depend on the order in which Go ranges over their maps -/
+
+/-- vip_rule.data (`Vips`: product → list) -/
+theorem C14_vip_order_independent (parseIP : ParseIP) (f : VipFile) (vips' : List (String × List String))
+    (hp : f.vips.Perm vips') : (vipLoad parseIP f).isOk = (vipLoad parseIP { f with vips := vips' }).isOk := by
+  unfold vipLoad
+  by_cases hv : f.version == ""
+  · simp [hv]
+  · simp only [hv, Bool.false_eq_true, if_false]
+    rw [vipBuild_ok_iff, vipBuild_ok_iff]
+    exact all_perm hp
+
+/-- route_rule.data (`BasicRule`, `ProductRule`: product → rule list; the rules of one product stay in file order) -/
+theorem C14_route_order_independent (condOk : CondOk) (f : RouteFile)
+    (basic basic' : List (String × List BasicRuleFile)) (adv adv' : List (String × List AdvRuleFile))
+    (hb : basic.Perm basic') (ha : adv.Perm adv') :
+    (routeLoad condOk { f with basic := some basic, adv := some adv }).isOk =
+    (routeLoad condOk { f with basic := some basic', adv := some adv' }).isOk := by
+  rw [routeLoad_isOk, routeLoad_isOk]
+  simp only [Option.getD_some, all_perm hb, all_perm ha]
+  rfl
+
+/-- cluster_conf.data (`Config`: cluster → conf) -/
+theorem C14_cluster_conf_order_independent (v : Option String) (cfg cfg' : List (String × ClusterConf))
+    (hp : cfg.Perm cfg') :
+    (ccLoad (some { version := v, config := some cfg })).isOk = (ccLoad (some { version := v, config := some cfg' })).isOk := by
+  have key : ∀ c : List (String × ClusterConf), (ccLoad (some { version := v, config := some c })).isOk =
+      (v.isSome && (clusterToConfCheck c).isOk) := by
+    intro c
+    cases v with
+    | none => simp [ccLoad, Res.isOk]
+    | some ver =>
+      have hchk := clusterToConfCheck_isOk c
+      cases hk : clusterToConfCheck c with
+      | crash => exact absurd hk (clusterToConfCheck_ne_crash c)
+      | err => simp [ccLoad, deref, Res.bind, Res.isOk, hk]
+      | ok c' =>
+        have hb : forAllM (fun (kv : String × ClusterConf) => basicInit kv.2) c' = .ok () :=
+          (forAllM_ok_iff c').mpr (clusterToConfCheck_basicInit c c' hk)
+        simp [ccLoad, deref, Res.bind, Res.isOk, hk, hb]
+  rw [key, key, clusterToConfCheck_isOk, clusterToConfCheck_isOk, all_perm hp]
+
+/-- gslb.data: the clusters in any order, and the sub-cluster weights of one cluster in any order (Go's `int` sum wraps,
+    but addition modulo 2^64 is still commutative) -/
+theorem C14_gslb_order_independent (f : GslbFile) (cs cs' : List (String × List (String × Int))) (hp : cs.Perm cs') :
+    gslbLoad { f with clusters := some cs } = gslbLoad { f with clusters := some cs' } := by
+  unfold gslbLoad
+  cases hh : f.hostname <;> cases ht : f.ts <;> simp only [deref_some, Res.bind]
+  rw [forAllM_eq_perm (fun _ => failIf_ne_crash _) hp, hp.length_eq]
+
+theorem C14_gslb_weights_order_independent (l l' : List (String × Int)) (hp : l.Perm l') :
+    gslbTotal l 0 = gslbTotal l' 0 := gslbTotal_perm hp
+
+/-- cluster_table.data (`Config`: cluster → sub-cluster → backend list; the backend lists stay in file order) -/
+theorem C14_cluster_table_order_independent (f : CtFile)
+    (cfg cfg' : List (String × List (String × List (Option Backend)))) (hp : cfg.Perm cfg') :
+    ctLoad { f with config := some cfg } = ctLoad { f with config := some cfg' } := by
+  unfold ctLoad
+  cases hv : f.version <;> simp only [deref_some, Res.bind]
+  rw [forAllM_eq_perm (fun kv => forAllM_ne_crash _ fun sv _ => by
+        unfold subClusterCheck
+        exact Res.bind_ne_crash (subClusterLoop_ne_crash _ _) fun _ _ => failIf_ne_crash _) hp, hp.length_eq]
+
+/-- name_conf.data (`Config`: service → instance list) -/
+theorem C14_name_conf_order_independent (c c' : List (String × List Instance)) (hp : c.Perm c') :
+    nameLoad { config := c } = nameLoad { config := c' } := by
+  unfold nameLoad
+  exact forAllM_eq_perm (fun _ => forAllM_ne_crash _ fun _ _ => failIf_ne_crash _) hp
+
 end BfeVerif.C14
